@@ -231,6 +231,7 @@ type Trace struct {
 	TeardownEnd                    time.Duration
 	Leaked                         []string // goroutines with library frames left after teardown
 	UnstoppedWatch                 int      // watchers the library never stopped
+	StallsHit                      int      // stalls of the plan that took place (Plan.Stalls)
 	UnstoppedWatchObjs             []int    // ... and the election objects that had opened them
 	Panics                         []string // panics recovered inside harness callbacks (none expected)
 	HarnessErr                     string
